@@ -5,6 +5,7 @@ CONSTANTS Pipes = {1, 2}
           MaxNow = 400
           Ticks = {5, 11, 35}
           Resend = 30
+          Resend2 = 80
           Tick = 10
           AllowRetune = TRUE
           FreeByClone = TRUE
